@@ -59,9 +59,13 @@ impl Drop for Sys15 {
             // leak: the verdict is already recorded, the poisoned subject is not touched again
             std::mem::forget(std::mem::take(&mut self.handles));
         } else {
-            let h = std::mem::take(&mut self.handles);
-            drop(h);
-            unsafe { std::mem::ManuallyDrop::drop(&mut self.sender) };
+            // every destructor of the subject runs under its own guard: a release that panics (its verdict is found
+            // through the DropH / Finish events of the search) must not unwind through the other destructors
+            for h in std::mem::take(&mut self.handles) {
+                let _ = catch(std::panic::AssertUnwindSafe(move || drop(h)));
+            }
+            let s = unsafe { std::mem::ManuallyDrop::take(&mut self.sender) };
+            let _ = catch(std::panic::AssertUnwindSafe(move || drop(s)));
         }
     }
 }
@@ -509,7 +513,9 @@ pub fn run(thorough: bool) -> i32 {
     let mut wit: BTreeMap<String, u64> = BTreeMap::new();
     let mut per_cfg = Vec::new();
     for cfg in configs() {
+        set_run_ctx(Some(json!({"check": "bfs", "cfg": cfg})));
         let (st, found) = bfs(|| Sys15::new(&cfg), depth, cap);
+        set_run_ctx(None);
         states += st.states;
         trans += st.transitions;
         for (k, n) in &st.witnesses {
